@@ -60,7 +60,7 @@ def run_replay(scen_path, trace_path, seed):
         if r.returncode == 3 and "RESUME" in r.stderr:
             # the library span without system calls in one scenario (recorded as cpu_spin); carry on after it
             start = int(r.stderr.split("RESUME")[1].split()[0])
-            notes.append("cpu_spin before line %d" % start)
+            notes.append(("abort" if "aborted the process" in r.stderr else "cpu_spin") + " before line %d" % start)
             if len(notes) >= 12:
                 # plenty of evidence; do not burn CPU on every remaining scenario
                 return "; ".join(notes + ["stopped after 12 CPU spins"])
